@@ -62,6 +62,8 @@ Why30(l, o) ==
     IF o.kind = "nostart" THEN (IF l.hasfile THEN "file-not-read" ELSE "start-failed")
     ELSE IF o.kind = "predef" /\ o.tool # "bisquitt"
             /\ o.id \in T!ShadowedIds(T!EffectiveConfig(file, opts), o.c, o.qn)
+            \* GetTopicID looks at the client's own entries first
+            /\ ~\E e \in T!EffectiveConfig(file, opts) : e.c = o.c /\ e.n = o.qn
          THEN "shadowed-star-id"
     ELSE IF l.hasfile /\ Explains(T!EffectiveConfig({}, opts), o) THEN "file-ignored"
     ELSE IF Len(opts) > 0 /\ Explains(T!EffectiveConfig(file, <<>>), o) THEN "options-ignored"
